@@ -219,7 +219,28 @@ func checkFixpoint(t *rapid.T, leg string, text []byte, g *doc.G) (nontrivial bo
 }
 
 func TestPropFixpoint(t *testing.T) {
-	ev.Check(t, 2000, 20000, func(t *rapid.T) {
+	ev.Check(t, 2000, 20000, fixpointCase)
+}
+
+// FuzzFixpoint: the same property under Go's coverage-guided fuzzer (thorough tier); the fuzz
+// input is the bit stream rapid draws from.
+func FuzzFixpoint(f *testing.F) {
+	x := uint64(0x2545f4914f6cdd1d)
+	for i := 0; i < 24; i++ {
+		b := make([]byte, 512<<(i%4))
+		for j := range b {
+			x ^= x << 13
+			x ^= x >> 7
+			x ^= x << 17
+			b[j] = byte(x >> 11)
+		}
+		f.Add(b)
+	}
+	f.Fuzz(rapid.MakeFuzz(fixpointCase))
+}
+
+func fixpointCase(t *rapid.T) {
+	{
 		g := doc.NewG(t, genConfig(t))
 		root := g.Pipeline()
 		d, err := doc.Render(root, rapid.SampledFrom([]int{2, 4}).Draw(t, "indent"), 20000)
@@ -247,7 +268,7 @@ func TestPropFixpoint(t *testing.T) {
 		}
 		rec.Case(ev.HashBytes(d.YAML), nt, cls...)
 		rec.MaybeSample(nt, func() any { return string(d.YAML[:min(len(d.YAML), 1200)]) })
-	})
+	}
 }
 
 func TestKnownFindings(t *testing.T) {
